@@ -3,6 +3,9 @@
    structures.py  Atom.get_common_string_rep, Atom.get_pqr_string, Atom.from_pqr_line
    io.py          print_biomolecule_atoms, read_pqr
    main.py        print_pqr (the --whitespace re-spacing by slices)
+   State of the code modelled: /repo WITH the repairs of C08-F4, C08-F5, the
+   z|charge|radius fusion (a blank at every field boundary: columns 6, 16, 22,
+   26, 38, 46, 54, 62) and C08-F7 (from_pqr_line skips lines starting with "#").
    + read_fixed:  reading the default layout back by the writer's own columns.
 
    Strings are Coq [string]s (ASCII).  Numbers are modelled AFTER Python's
@@ -148,8 +151,9 @@ Definition print_atoms (chainflag : bool) (l : list atom) : list string :=
 (* ---- main.print_pqr -------------------------------------------------------- *)
 
 Definition respace (line : string) : string :=
-  slice 0 6 line ++ " " ++ slice 6 16 line ++ " " ++ slice 16 38 line ++ " "
-  ++ slice 38 46 line ++ " " ++ drop 46 line.
+  slice 0 6 line ++ " " ++ slice 6 16 line ++ " " ++ slice 16 22 line ++ " "
+  ++ slice 22 26 line ++ " " ++ slice 26 38 line ++ " " ++ slice 38 46 line ++ " "
+  ++ slice 46 54 line ++ " " ++ slice 54 62 line ++ " " ++ drop 62 line.
 
 Definition is_atom_line (line : string) : bool :=
   String.eqb (slice 0 4 line) "ATOM" || String.eqb (slice 0 6 line) "HETATM".
@@ -373,11 +377,16 @@ Definition parse_fields (ty : string) (words : list string) : presult :=
       end
   end.
 
+(* token.startswith("#") *)
+Definition hash_char : ascii := "#"%char.
+Definition starts_hash (t : string) : bool :=
+  match t with String c _ => (c =? hash_char)%char | EmptyString => false end.
+
 Definition from_pqr_line (line : string) : presult :=
   match tokens line with
   | [] => PIndexError
   | token :: words =>
-      if mem_str token skip_words then PNone
+      if starts_hash token || mem_str token skip_words then PNone
       else if mem_str token ["ATOM"; "HETATM"] then parse_fields token words
       else if String.eqb (take 4 token) "ATOM" then parse_fields "ATOM" (drop 4 token :: words)
       else if String.eqb (take 6 token) "HETATM" then parse_fields "HETATM" (drop 6 token :: words)
@@ -443,7 +452,7 @@ Definition expected_fixed (chainflag : bool) (a : atom) : fatom :=
 Definition expected_ws (chainflag : bool) (a : atom) : patom :=
   mkpatom (a_type a) (a_serial a) (a_name a) (a_res_name a)
           (if chainflag && negb (is_empty (a_chain a)) then Some (a_chain a) else None)
-          (a_res_seq a) None
+          (a_res_seq a) (if is_empty (a_ins a) then None else Some (a_ins a))
           (pf_of 3 (a_x a)) (pf_of 3 (a_y a)) (pf_of 3 (a_z a))
           (pf_of_opt 4 (a_charge a)) (pf_of_opt 4 (a_radius a)).
 
@@ -499,28 +508,28 @@ Definition fixed_ok (chainflag : bool) (a : atom) : bool :=
   && fits 8 (fmt_fixed 3 (a_x a)) && fits 8 (fmt_fixed 3 (a_y a)) && fits 8 (fmt_fixed 3 (a_z a))
   && fits 8 (opt_fmt4 (a_charge a)) && fits 7 (opt_fmt4 (a_radius a)).
 
-(* --whitespace layout: additionally the tokens must stay separated and
-   unambiguous for from_pqr_line: no insertion code (it is glued to resSeq), a
-   printed chain id must not be a digit (int() would take it for resSeq) and
-   leaves only 3 columns to resSeq, charge <= 7 chars and radius <= 6 chars
-   (no blank is inserted between z, charge and radius), names non-empty *)
+(* --whitespace layout (a blank at every field boundary): the column
+   capacities of the default layout, and what keeps the token grammar of
+   from_pqr_line unambiguous: names non-empty, a printed chain id is not a
+   digit (int() would take it for resSeq: C08-F6) and the insertion code is not
+   a digit (float() would take it for x: C08-F8) *)
 Definition ws_ok (chainflag : bool) (a : atom) : bool :=
-  type_ok a
-  && fits 5 (Z_to_string (a_serial a))
-  && token_ok 1 4 (a_name a) && token_ok 1 4 (a_res_name a)
-  && (negb chainflag
-      || (token_ok 0 1 (a_chain a) && negb (any_char is_digit (a_chain a))
-          && (is_empty (a_chain a) || fits 3 (Z_to_string (a_res_seq a)))))
-  && fits 4 (Z_to_string (a_res_seq a))
-  && is_empty (a_ins a)
-  && fits 8 (fmt_fixed 3 (a_x a)) && fits 8 (fmt_fixed 3 (a_y a)) && fits 8 (fmt_fixed 3 (a_z a))
-  && fits 7 (opt_fmt4 (a_charge a)) && fits 6 (opt_fmt4 (a_radius a)).
+  fixed_ok chainflag a
+  && negb (is_empty (a_name a)) && negb (is_empty (a_res_name a))
+  && (negb chainflag || negb (any_char is_digit (a_chain a)))
+  && negb (any_char is_digit (a_ins a)).
 
 (* numeric columns only (used by the C09 printing-side lemma) *)
 Definition num_ok (a : atom) : bool :=
   fits 1 (a_ins a)
   && fits 8 (fmt_fixed 3 (a_x a)) && fits 8 (fmt_fixed 3 (a_y a)) && fits 8 (fmt_fixed 3 (a_z a))
   && fits 7 (opt_fmt4 (a_charge a)) && fits 6 (opt_fmt4 (a_radius a)).
+
+(* the same with the full widths of the charge and radius columns *)
+Definition num_fits (a : atom) : bool :=
+  fits 1 (a_ins a)
+  && fits 8 (fmt_fixed 3 (a_x a)) && fits 8 (fmt_fixed 3 (a_y a)) && fits 8 (fmt_fixed 3 (a_z a))
+  && fits 8 (opt_fmt4 (a_charge a)) && fits 7 (opt_fmt4 (a_radius a)).
 
 (* ---- show functions (correspondence harness) -------------------------------- *)
 
